@@ -71,3 +71,10 @@ pub proof fn axiom_u8_vec_len(b: &Vec<u8>)
     ensures b@.len() <= isize::MAX, b@.len() < usize::MAX,
 { }
 } // verus!
+verus! {
+/// TRUSTED: the text of any value is a real `[u8]`, hence at most isize::MAX bytes long.
+#[verifier::external_body]
+pub proof fn axiom_text_len<T: ?Sized>(t: &T)
+    ensures bytes_of(t).len() <= isize::MAX, bytes_of(t).len() < usize::MAX,
+{ }
+} // verus!
